@@ -18,6 +18,16 @@ RULE = (
     "distinct = blake2b(stream, plan, mode); non-trivial = at least one frame was delivered and checked "
     "and the stream holds at least one non-frame item or a fault was applied"
 )
+RULE += (
+    ' Also in the streams: frame-shaped pseudo-frames with a wide length field, length-lie frames (fewer /'
+    ' more bytes than announced, trailer valid for the bytes present) with DIRECTED consecutive faults on'
+    ' their payload read, CRC colliders, frames used as payloads, exact and damaged repeats, a valid frame'
+    ' whose halves are never contiguous, header|payload|stray bytes|trailer blocks (stray = inert or'
+    ' CR/LF) with 2-3 consecutive short reads and with a TCP segment ending exactly behind the payload,'
+    " F1|X blocks where X's trailer is valid for a buffered prefix of F1 plus X with a failing read inside"
+    ' F1, frames with steered checksum bytes; socket-backed runs with timeouts / OS errors; 40 % of the'
+    ' defined messages are laid out from the pinned layouts.'
+)
 ASSUMPTIONS = [
     "the stream double implements read(n)/readline() like a file object; faults are short reads, "
     "empty reads with data remaining, premature EOF and partial lines",
